@@ -320,6 +320,7 @@ struct GenOptions {
     double echoMeasureProb = 0.1;      // measure nested directly in an echo argument
     double sameQubitCxProb = 0.0;      // cx whose two operands are the same qubit, passed through two function parameters
     bool staticQubit = false;
+    double hugeLoopProb = 0.0;         // a Pauli/Hadamard gate inside a loop of a little over 2^20 iterations (at most one per plan)
     double nonFiniteAngleProb = 0.0;   // a rotation whose angle is computed as inf or NaN (ends the program)
     double portProb = 0.0;             // an object whose qubit field is re-pointed at local qubits by assignment
 };
@@ -355,6 +356,7 @@ inline Plan generate(sim::Rng& g, const GenOptions& go) {
     };
     int n = g.range(3, go.maxOps);
     bool stop = false;
+    bool hugeLoopUsed = false;
     if (go.staticQubit) { p.staticQubit = true; live.push_back({{5, 0, 0}, false}); allocated += 1; }
     for (int i = 0; i < n && !stop; ++i) {
         Op o;
@@ -526,6 +528,7 @@ inline Plan generate(sim::Rng& g, const GenOptions& go) {
             o.angleNeg = g.chance(0.3);
             if (bitvars > 0 && g.chance(0.15)) { o.kind = IFGATE; o.cond = (int)g.below((uint64_t)bitvars); }
             else if (g.chance(0.08)) o.loop = 2 + (int)g.below(2);
+            if (go.hugeLoopProb > 0 && !hugeLoopUsed && o.kind == GATE && g.chance(go.hugeLoopProb)) { o.loop = (1 << 20) + 1 + (int)g.below(3); o.gate = (int)g.below(4); o.path = 0; hugeLoopUsed = true; }
             if (go.nonFiniteAngleProb > 0 && o.gate >= 4 && o.kind == GATE && g.chance(go.nonFiniteAngleProb)) { o.angle = 20 + (int)g.below(2); stop = true; }
             p.ops.push_back(o);
         } else if (u < 0.78 && active.size() >= 2) {
